@@ -1098,9 +1098,26 @@ func (s *Server) RemoteSync(
 	}
 	s.Mach.Add1(ssS.MetricSync, nil)
 
-	*resp = MsgSrvSync{
-		Time:      s.Source.Time(nil),
-		QueueTick: s.Source.QueueTick(),
+	// no pushes nor mutations in between
+	s.lockExport.Lock()
+	defer s.lockExport.Unlock()
+
+	// the client only knows the tracked states (see RemoteHello), and later
+	// diffs have to start from what it receives here
+	if data := s.tracer.DataLatest(); data != nil {
+		*resp = MsgSrvSync{
+			Time:      data.mTime,
+			QueueTick: data.queueTick,
+			MachTick:  data.machTick,
+		}
+		s.storeLastPush(data)
+	} else {
+		// nothing has happened since the handshake
+		*resp = MsgSrvSync{
+			Time:      s.lastPushData.mTime,
+			QueueTick: s.lastPushData.queueTick,
+			MachTick:  s.lastPushData.machTick,
+		}
 	}
 	s.log("RemoteSync: [%v]", resp.Time)
 
